@@ -194,8 +194,14 @@ impl Repl {
                     let name = second_of_alist(prog0.clone())?;
                     let built_program = program_with_helper(vec![name], prog0);
                     let program = frontend(self.opts.clone(), &[built_program])?;
-                    self.evaluator
-                        .add_helper(&program.helpers[program.helpers.len() - 1]);
+                    if let Some(helper) = program.helpers.last() {
+                        self.evaluator.add_helper(helper);
+                    } else {
+                        return Err(CompileErr(
+                            parsed_program[0].loc(),
+                            "this form does not define anything".to_string(),
+                        ));
+                    }
                     Ok(Some(Rc::new(BodyForm::Quoted(SExp::Nil(self.loc.clone())))))
                 } else {
                     frontend(self.opts.clone(), &parsed_program)
